@@ -20,6 +20,12 @@ NA = {
 }
 
 CHECKS = {
+ "C10": dict(
+   level="exploration",
+   text="Definition-level fault injection against a fault-free reference run: 1..3 faults per run from cooperative fault points in the compiler (verif::buggify at the per-definition generator fold of both backends and at the validator fold), replacement of type assignments by parseable but unsupported definitions (REAL, VideotexString, inverted range, MACRO), and one module of several that does not lex. Oracles: accounting (every assignment is represented by the items attributed to it in the fault-free run, or matched to a new warning - named, or unnamed via bipartite matching); locality (every item of a definition that does not depend on a faulted one is token-identical to the fault-free run; for buggify faults nothing but the faulted definition is exempt); Err when any source fails to lex; normal return and renderable warnings. Both backends, random RasnConfig.",
+   note="Attribution of items to definitions is learned by leave-one-out compilation in the reference child; definitions with empty attribution are not judged. Sampling, not proof.",
+   technique="deterministic simulation with fault injection: buggify-style cooperative fault points at definition granularity plus input-level definition faults; accounting/locality oracles against a fault-free reference",
+   design="§4 C10"),
  "C12": dict(
    level="exploration",
    text="Deterministic simulation of module-delivery histories. (A) A wrapper backend on the public Backend trait treats the generate_module call stream as a transport that replays, duplicates and reorders captured modules (also across several compilations in one run, with other TAGS/EXTENSIBILITY defaults); every delivery to the long-lived real backend must equal the same call on a fresh backend. (B) Sub-multisets and orders of generated module sets (2..5 modules, differing defaults, acyclic and cyclic import graphs, imported types/values in components, constraints and DEFAULTs) handed to one Compiler through every builder path, as literals/one literal/files: every module's block must be token-identical to its block in the stand-alone compilation (module + import cone, pristine process). (C) Every IMPORTS clause must become use super::<module>::{...} of exactly the imported symbols (plus documented associated types), * exactly under default_wildcard_imports, and module-qualified references must go through super::<module>::.",
